@@ -633,11 +633,11 @@ impl Check for C18 {
                 Section { name: "wrap-around-focus", runs: 6_000 },
             ],
             Tier::Thorough => vec![
-                Section { name: "adaptive-uploader-fault-free", runs: 150_000 },
-                Section { name: "adaptive-uploader-with-faults", runs: 200_000 },
-                Section { name: "time-scripted-uploader-fault-free", runs: 120_000 },
-                Section { name: "time-scripted-uploader-with-faults-and-skew", runs: 150_000 },
-                Section { name: "wrap-around-focus", runs: 80_000 },
+                Section { name: "adaptive-uploader-fault-free", runs: 500_000 },
+                Section { name: "adaptive-uploader-with-faults", runs: 700_000 },
+                Section { name: "time-scripted-uploader-fault-free", runs: 400_000 },
+                Section { name: "time-scripted-uploader-with-faults-and-skew", runs: 600_000 },
+                Section { name: "wrap-around-focus", runs: 300_000 },
                 Section { name: "full-999-volume-rotation", runs: 16 },
             ],
         }
